@@ -10,8 +10,9 @@ ID = 'C04'
 LEVEL = 'exploration'
 RULE = ('worlds = 6 layer shapes x every placement of <=K faulty test '
         'scripts (every raising phase: setUp, body, subtests, tearDown, '
-        'cleanup, two-event tests, SystemExit; 9 exception classes for the '
-        'body error) x <=1 failing layer hook x --buffer on/off x -v levels x '
+        'cleanup, two-event tests, SystemExit; 14 exception shapes for the '
+        'body error incl. chained/contextual/grouped/annotated ones and one '
+        'whose __str__ raises) x <=1 failing layer hook x --buffer on/off x -v levels x '
         '{sequential, -j2}; the real Runner must return, run every other '
         'runnable test once, tear every layer down, print a summary per layer '
         'and list each fault against the right test/layer; non-trivial = >=1 '
@@ -30,7 +31,8 @@ MENU = ['fail', 'setup_err', 'teardown_err', 'cleanup_err', 'body+teardown',
         'fail+teardown', 'sub:2,0,0', 'sub:1,1,0', 'sub:0,2,0', 'uxs', 'sysexit',
         'skip_dec', 'xfail']
 EXCS = ['ValueError', 'KeyError', 'User', 'Deep', 'BadStr', 'Unicode',
-        'Recursion', 'Stop', 'OSError']
+        'Recursion', 'Stop', 'OSError', 'Chained', 'Context', 'Chain3',
+        'Group', 'Noted']
 
 
 def _menu():
@@ -54,7 +56,8 @@ def cases(tier, seed):
             if tier == 'thorough' and sum(1 for s in scripts if s != 'pass') == 2:
                 lfs = [{}]
             else:
-                lfs = list(ow.layer_fault_choices(shape, 1))
+                allpass = all(s == 'pass' for s in scripts)
+                lfs = list(ow.layer_fault_choices(shape, 1, rich=allpass))
             for lf in lfs:
                 for buf in (False, True):
                     for v in vs:
